@@ -3,6 +3,7 @@
 package main
 
 import (
+	"strings"
 	"encoding/json"
 	"flag"
 	"fmt"
@@ -125,8 +126,10 @@ func main() {
 	shrinkBudget := flag.Float64("shrink-budget", 30, "shrink budget in seconds")
 	fp := flag.String("fingerprint", "", "code fingerprint to record")
 	trace := flag.Bool("trace", false, "print the trace on replay")
+	hashes := flag.String("hashes", "", "write 'run tracehash steps class' per run to this file (determinism self-test)")
+	gmp := flag.Int("gomaxprocs", 1, "GOMAXPROCS of the worker")
 	flag.Parse()
-	runtime.GOMAXPROCS(1)
+	runtime.GOMAXPROCS(*gmp)
 	detsim.PanicFramePrefixes = []string{"github.com/boz/kcache.", "github.com/boz/go-lifecycle.", "github.com/boz/kcache/join.", "github.com/boz/kcache/types/"}
 
 	switch {
@@ -145,6 +148,7 @@ func main() {
 	sched := map[uint64]bool{}
 	nontriv := map[uint64]bool{}
 	start := time.Now()
+	var hashLines []string
 	for idx := *from; idx < *to; idx += *stride {
 		if *budget > 0 && time.Since(start).Seconds() > *budget {
 			break
@@ -162,6 +166,13 @@ func main() {
 		wantTrace := len(st.Samples) < 2
 		res := execute(*prop, sc, rs, nil, false, wantTrace)
 		st.Runs++
+		if *hashes != "" {
+			cl := "-"
+			if res.Violation != nil {
+				cl = res.Violation.Class
+			}
+			hashLines = append(hashLines, fmt.Sprintf("%d %d %d %d %s", idx, res.TraceHash, res.Steps, int64(res.Now), cl))
+		}
 		st.Steps += int64(res.Steps)
 		st.SimNanos += int64(res.Now)
 		st.Decisions += int64(len(res.Tape))
@@ -209,6 +220,9 @@ func main() {
 				break
 			}
 		}
+	}
+	if *hashes != "" {
+		os.WriteFile(*hashes, []byte(strings.Join(hashLines, "\n")+"\n"), 0644)
 	}
 	st.WallS = time.Since(start).Seconds()
 	for h := range sched {
